@@ -1032,8 +1032,8 @@ func c06Sequences(w *core.W, j int) {
 			[]exp{{"one.a.example.", 600}, {"two.a.example.", 300}}},
 	)
 	files := fstest.MapFS{
-		"zones/seq.db": &fstest.MapFile{Data: []byte("www 77 IN A 192.0.2.7\n@ 77 IN A 192.0.2.7\na.b 77 IN A 192.0.2.7\n* 77 IN A 192.0.2.7\nWWW 77 IN A 192.0.2.7\n")},
-		"zones/ttl.db": &fstest.MapFile{Data: []byte("one 600 A 192.0.2.1\ntwo A 192.0.2.2\n")},
+		"zones/seq.db":  &fstest.MapFile{Data: []byte("www 77 IN A 192.0.2.7\n@ 77 IN A 192.0.2.7\na.b 77 IN A 192.0.2.7\n* 77 IN A 192.0.2.7\nWWW 77 IN A 192.0.2.7\n")},
+		"zones/ttl.db":  &fstest.MapFile{Data: []byte("one 600 A 192.0.2.1\ntwo A 192.0.2.2\n")},
 		"zones/gen0.db": &fstest.MapFile{Data: []byte("g0 60 A 192.0.2.1\n")},
 		"zones/gen1.db": &fstest.MapFile{Data: []byte("g1 61 A 192.0.2.1\n")},
 	}
